@@ -3,6 +3,7 @@ routing history says so.  The route graph comes from the specification (plus
 the rewiring operations the script has performed), never from the objects."""
 from . import register
 from ..census import leaves_of
+from .. import modelgen
 
 
 def uid(p):
@@ -16,6 +17,7 @@ class Routing:
         self.m = ctx.model
         items = ctx.spec['items']
         self.kind = {i['id']: i['kind'] for i in items}
+        self.pred = {i['id']: i['pred'] for i in items if i['kind'] == 'gate'}
         self.up = {i['id']: list(i.get('up', [])) for i in items if 'up' in i or i['kind'] == 'source'}
         self.members = {i['id']: i['members'] for i in items if i['kind'] == 'group'}
         self.path_group = {i['id']: i['group'] for i in items if i['kind'] == 'path'}
@@ -177,6 +179,11 @@ class Routing:
                 if k == 'gate':
                     cands = gate_true.get(d, [])
                     if not any(c is leaf or c is top or (getattr(c, 'parts', None) and leaf in c.parts) for c in cands):
+                        # the predicate was not (re-)evaluated to True in this event; that alone refutes nothing,
+                        # so the monitor evaluates the configured predicate on the part as it is now
+                        if d in self.pred and modelgen.eval_pred(self.pred[d], top):
+                            ctx.count('gate_pass_without_evaluation_but_acceptable')
+                            continue
                         ctx.report('gate', f'part {u} passed gate {d} at {now!r} without its predicate accepting it')
                         return
                     ctx.count('gate_passages_checked')
@@ -225,11 +232,15 @@ class Routing:
         ctx, m = self.ctx, self.m
         now = env.now
         moves = {}
+        unlocated = set()
         for did, part in received_now:
-            if did not in self.single or getattr(part, 'parts', None) is not None:
+            if did not in self.single:
                 continue
-            loc = prev.loc.get(uid(part))
+            # a batch handed over in the same event is replayed (it occupies its receiver) but not judged
+            lv = leaves_of(part)
+            loc = prev.loc.get(uid(lv[0])) if lv else None
             if loc is None:
+                unlocated.add(did)      # e.g. an empty batch: its sender and its place in the order are unknown
                 continue
             moves.setdefault(loc[0], []).append((did, part))
         for sender, lst in moves.items():
@@ -237,6 +248,9 @@ class Routing:
                 continue
             sdev = m.devs[sender]
             direct = [m.id_of.get(id(d)) for d in sdev._downstream]
+            if any(c in unlocated for c in direct):
+                ctx.count('idle_longest_not_judged')
+                continue
             # state of the candidates at the moment of each hand-over
             busy = {}
             since = {}
@@ -265,7 +279,9 @@ class Routing:
                         continue
                     cands.append(c)
                 judged = False
-                if recv in cands and len(cands) >= 2 and not ambiguous:
+                if getattr(part, 'parts', None) is not None:
+                    ctx.count('idle_longest_batch_hand_overs_replayed')
+                elif recv in cands and len(cands) >= 2 and not ambiguous:
                     best = min(since[c] for c in cands)
                     winners = [c for c in cands if since[c] == best]
                     if len(winners) > 1 and recv in winners:
